@@ -8,7 +8,8 @@ line protocol (one line in, one line out):
   crash <E> <rot> <comp> <ret> <K> <J> <call>*     file sink; E = "~" (no file) or token of the existing content;
                                                    K calls return, then J primitives of call K+1 run, then the process dies
         -> ok <pending> <file>*                    files on disk, oldest first
-  stream <flushable> <lineBuffered> <K> <call>*    stream sink over a user file object; dies after K calls
+  stream <hasFlush> <lineBufferingAttr> <writeThrough> <lineBuffered> <K> <call>*   stream sink over a user stream
+                                                   (what it exposes; how its file really buffers); dies after K calls
         -> ok <pending> <os>
   exitf <enq> <rot> <comp> <ret> <Q> <call>*       one file handler, the last Q calls still queued at interpreter exit
         -> ok <registered> <stopped> <hung> <open> <compressions> <retentions> <pending> <file>*
@@ -58,13 +59,13 @@ def step (line : String) : String :=
         | [] => s
       "ok " ++ encTok s.pendingText ++ " " ++ encList s.disk
     | _, _, _, _, _, _, _ => "bad-op"
-  | "stream" :: fl :: lb :: k :: rest =>
-    match bit fl, bit lb, k.toNat?, parseCalls Gen.streamTerminator rest with
-    | some fl, some lb, some k, some calls =>
-      let s0 : Stream := { file := { os := [], pending := [], lineBuffering := lb, closed := false }, flushable := fl }
+  | "stream" :: fl :: lba :: wt :: lb :: k :: rest =>
+    match bit fl, bit lba, bit wt, bit lb, k.toNat?, parseCalls Gen.streamTerminator rest with
+    | some fl, some lba, some wt, some lb, some k, some calls =>
+      let s0 : Stream := StreamSink.new { os := [], pending := [], lineBuffering := lb, closed := false } fl lba wt
       let s := ((calls.take k).map (·.2)).foldl Stream.sinkWrite s0
       "ok " ++ encTok s.file.pending ++ " " ++ encTok s.file.crash
-    | _, _, _, _ => "bad-op"
+    | _, _, _, _, _, _ => "bad-op"
   | "exitf" :: enq :: rot :: comp :: ret :: q :: rest =>
     match bit enq, bit rot, bit comp, bit ret, q.toNat?, parseCalls Gen.fileTerminator rest with
     | some enq, some rot, some comp, some ret, some q, some calls =>
@@ -89,7 +90,7 @@ def step (line : String) : String :=
     | some enq, some fl, some stoppable, some q, some calls =>
       let q := if enq then min q calls.length else 0
       let direct := calls.take (calls.length - q)
-      let s0 : Stream := { file := { os := [], pending := [], lineBuffering := false, closed := false }, flushable := fl }
+      let s0 : Stream := StreamSink.new { os := [], pending := [], lineBuffering := false, closed := false } fl false false
       let h : Handler := { enqueue := enq, owner := true, queue := calls.drop (calls.length - q),
                            sink := direct.foldl Sink.write (.stream s0 stoppable 0),
                            stopped := false, sentinel := false, joined := false, hung := false }
